@@ -1,5 +1,37 @@
+/-
+C20 — The on-disk hash set answers membership exactly like a set.
+Property theorems only. Model: Model/HashSet.lean (pkg/index). Spec: Spec/HashSet.lean (`hsInv`).
+-/
 import WrglModel.Model.HashSet
 import WrglModel.Spec.HashSet
+import WrglModel.Lemmas.C20
 namespace Wrgl
-theorem C20_placeholder : True := trivial
+
+/-- After any sequence of additions (repeats, any order), flushes (any pattern, any batch size)
+    and flush+close+reopen steps, followed by a flush: no operation failed or panicked, the stored
+    entries are sorted and the fan-out table is consistent with them, `Has` answers `true` exactly
+    for the hashes that were added, and a handle reopened from the file gives the same answers. -/
+theorem C20_membership (bs : Nat) (ops : List HSOp) :
+    ∃ s, runOps (HS.open_ { fanout := [], entries := [] } bs) (ops ++ [.flush]) = .ok s ∧
+      hsInv s.file = true ∧
+      (∀ h, s.has h = .ok (decide (h ∈ addedOf ops))) ∧
+      (∀ h, (HS.open_ s.file bs).has h = s.has h) :=
+  hashset_is_a_set bs ops
+
+/-- One flush: sortedness and fan-out consistency are kept and exactly the batch is added. -/
+theorem C20_flush_inv (s : HS) (hc : s.Coherent) :
+    ∃ s', s.flush = .ok s' ∧ s'.Coherent ∧ s'.batch = [] ∧
+      (∀ h, h ∈ s'.file.entries ↔ h ∈ s.file.entries ∨ h ∈ s.batch) :=
+  flush_spec s hc
+
+/-- `Has` on a coherent handle: no false negative, no false positive. -/
+theorem C20_has_exact (s : HS) (hc : s.Coherent) (h : Hash) :
+    s.has h = .ok (decide (h ∈ s.file.entries)) :=
+  has_spec s hc h
+
+/-- non-vacuity: a repeat within a batch, an insert between existing entries, first bytes 0x00/0xff -/
+example :
+    (runOps (HS.open_ { fanout := [], entries := [] } 2)
+      [.add [0xff, 1], .add [0x00, 2], .add [0x7f], .add [0x7f], .flush]).isOk = true := by decide
+
 end Wrgl
